@@ -41,15 +41,22 @@ CONFIG = dict(
     assumptions=["hook results are tuples/lists/FrameIterators (a hostile Sequence whose __reversed__/__len__ raises is out of scope)",
                  "warnings are not turned into errors; injected exceptions derive from Exception (BaseException such as KeyboardInterrupt propagates by design)",
                  "unwrap tables are rank-ordered (acyclic) apart from the linear self-loop"],
-    unproved_legs=["C05_prefix_kept is proved as: frames already yielded are never dropped or altered by anything that happens later (all tables, all faults); "
-                   "the two-run form (faulty and fault-free runs agree on every frame yielded before the first fired fault) is checked at run time only "
-                   "(direct oracle on every synthetic case, per-level oracle in the real-scenario leg)",
-                   "location of an error (which Stack of the tree holds it) is fixed by the model (nested runs start with an empty error list) and compared "
-                   "by the correspondence; the theorem C05_errors_exact states tree-wide exactness and per-Stack order",
-                   "real-scenario leg is a runtime oracle, not a model comparison (DESIGN's record/replay abstraction was replaced by a direct oracle)"],
+    unproved_legs=["C05_prefix_kept is proved as: frames already yielded and errors already recorded are never dropped, reordered or altered by "
+                   "anything that happens later (all tables, all faults, all guards); the two-run form (faulty and fault-free runs agree on every frame "
+                   "yielded before the first fired fault) is checked at run time only (direct oracle on every synthetic case, per-level oracle in the real-scenario leg)",
+                   "which Stack of the tree holds an error is fixed by the model (nested runs start with an empty error list) and compared by the "
+                   "correspondence; C05_errors_exact states tree-wide exactness, C05_errors_in_order the per-Stack firing order, "
+                   "C05_errors_exact_any_state the same for every nested run",
+                   "error shape (alone if one, ExceptionGroup of >= 2 otherwise) is a runtime oracle on every case: the model keeps a list per Stack",
+                   "real-scenario leg is a runtime oracle, not a model comparison (DESIGN's record/replay abstraction was replaced by a direct oracle); "
+                   "small scope in thorough = every 41st table of the exhaustive 3-object x 2-frame space, each with all single faults and all pairs"],
+    notes=("candidate finding (not in known_findings.json, recorded under extra_legs.finding_candidates_not_in_known_findings): a hook exception raised "
+           "inside the extract_outermost(mgr.gen) call that the contextlib glue makes for an *exiting* generator-based manager with a registered "
+           "unwrap_context_generator is dropped when a frame was already obtained (extract_outermost discards its local error list); "
+           "also counted, not flagged: faults held by an inner_stack that a later unwrap_context replacement discards (documented reset)"),
     timeout={"quick": 900, "thorough": 5400},
 )
-NOTES = "see CONFIG['unproved_legs']"
+NOTES = CONFIG["notes"]
 
 
 # ----------------------------------------------------------------- inputs
